@@ -21,6 +21,22 @@ func main() {
 		cmdVerify(os.Args[2:])
 	case "check":
 		os.Exit(cmdCheck(os.Args[2:]))
+	case "slice":
+		// govc slice <file.smt2> <depth>: print the relevance slice of a query (debugging aid)
+		b, err := os.ReadFile(os.Args[2])
+		if err != nil {
+			fmt.Fprintln(os.Stderr, err)
+			os.Exit(2)
+		}
+		d := 1
+		if len(os.Args) > 3 {
+			fmt.Sscan(os.Args[3], &d)
+		}
+		tol := 0.0
+		if len(os.Args) > 4 {
+			fmt.Sscan(os.Args[4], &tol)
+		}
+		fmt.Print(sliceQueryTol(string(b), d, tol))
 	case "funcs":
 		// govc funcs <pkg-pattern> <key-prefix>: list function keys (closures included)
 		w, err := loadWorld("/repo", []string{os.Args[2]}, nil)
